@@ -171,6 +171,9 @@ def run_case(case, base_tmp):
     base = {k: rng.choice([0, 0, 1, 2, 4, 9, 20, 45]) for k in KINDS}
 
     def latency(kind=None):
+        if isinstance(mode, dict):
+            # explicit delay per kind of request (schedule sweep): no randomness at all
+            return ("y", int(mode.get(kind, 0)))
         if mode == "bykind":
             return ("y", base.get(kind, 0) + rng.choice([0, 0, 0, 1, 2]))
         if mode == "none":
